@@ -133,10 +133,11 @@ class NcchCheck(Check):
                 ops = gen_ops(rng, min(ln, 0x900), writes=False, queries=False)[:6]
                 # make the offsets interesting: section / chunk boundaries
                 extra = []
-                for _ in range(4):
-                    b = rng.pick([0, 0x200, ln, ln - 0x200] + [s * 0x200 for s, _ in lay.values()] if name == 'full' else [0, 0x200, ln])
+                for _ in range(6 if name == 'full' else 4):
+                    b = rng.pick([0, 0x200, ln, ln - 0x200, 0x100, 0x188, 0x18B, 0x18D, 0x18F, 0x190] + [s * 0x200 for s, _ in lay.values()]
+                                 if name == 'full' else [0, 0x200, ln])     # full: incl. the rewritten header flag bytes
                     off = max(0, b + rng.pick([-2, -1, 0, 1, 0x1FF, 0x200]))
-                    extra += [['s', off, 0], ['r', rng.pick([1, 2, 0x1FF, 0x200, 0x201, 0x400, 0x650])], ['t']]
+                    extra += [['s', off, 0], ['r', rng.pick([1, 1, 2, 3, 4, 0x1FF, 0x200, 0x201, 0x400, 0x650])], ['t']]
                 ops = [['r', -1], ['s', 0, 0]] + ops + extra
                 try:
                     fh = rd.open_raw_section(NCCHSection(num))
